@@ -4,6 +4,7 @@ import (
 	"fmt"
 	"reflect"
 	"sort"
+	"strings"
 )
 
 // Channels of the code under test stay real Go channels, but only as
@@ -25,6 +26,11 @@ func (s *Sched) chanOf(key any, capa int, isNil bool) *chanState {
 	c := s.chans[key]
 	if c == nil {
 		c = &chanState{id: s.chanSeq, capa: capa, label: fmt.Sprintf("ch%d", s.chanSeq)}
+		if id, ok := s.stable[reflect.ValueOf(key).Pointer()]; ok {
+			c.label = id
+		} else {
+			s.unstable = true
+		}
 		s.chanSeq++
 		s.chans[key] = c
 	}
@@ -37,7 +43,11 @@ func NameChan[T any](c chan T, name string) {
 	if s == nil || c == nil {
 		return
 	}
-	s.chanOf(any(c), cap(c), false).label = name
+	cs := s.chanOf(any(c), cap(c), false)
+	if !strings.HasPrefix(cs.label, "ch") { // keep a stable id if it has one
+		return
+	}
+	cs.label = name
 }
 
 func (s *Sched) pendingRecv(self *Thread, c *chanState) *Thread {
@@ -360,4 +370,64 @@ func lessAny(a, b any) bool {
 		return x < b.(int64)
 	}
 	return fmt.Sprint(a) < fmt.Sprint(b)
+}
+
+// RegisterTree walks an object graph (through pointers, structs, interfaces,
+// arrays and slices, including unexported fields) and gives every vsched mutex
+// and every channel found a stable id: the prefix plus the field path. Called
+// by the harness right after a Watcher has been created, so that the names of
+// synchronisation objects do not depend on which thread happens to use them
+// first (state-key pruning relies on that).
+func RegisterTree(root any, prefix string) {
+	s := cur
+	if s == nil {
+		return
+	}
+	if s.stable == nil {
+		s.stable = map[uintptr]string{}
+	}
+	seen := map[uintptr]bool{}
+	muT, rwT := reflect.TypeOf(Mutex{}), reflect.TypeOf(RWMutex{})
+	var walk func(v reflect.Value, path string, depth int)
+	walk = func(v reflect.Value, path string, depth int) {
+		if !v.IsValid() || depth > 8 {
+			return
+		}
+		switch v.Kind() {
+		case reflect.Ptr, reflect.Interface:
+			if v.IsNil() {
+				return
+			}
+			if v.Kind() == reflect.Ptr {
+				if seen[v.Pointer()] {
+					return
+				}
+				seen[v.Pointer()] = true
+			}
+			walk(v.Elem(), path, depth+1)
+		case reflect.Struct:
+			if v.Type() == muT || v.Type() == rwT {
+				if v.CanAddr() {
+					s.stable[v.UnsafeAddr()] = path
+				}
+				return
+			}
+			for i := 0; i < v.NumField(); i++ {
+				walk(v.Field(i), path+"."+v.Type().Field(i).Name, depth+1)
+			}
+		case reflect.Chan:
+			if !v.IsNil() {
+				if _, dup := s.stable[v.Pointer()]; !dup {
+					s.stable[v.Pointer()] = path
+				}
+			}
+		case reflect.Array, reflect.Slice:
+			if v.Len() <= 16 && (v.Type().Elem().Kind() == reflect.Struct || v.Type().Elem().Kind() == reflect.Ptr) {
+				for i := 0; i < v.Len(); i++ {
+					walk(v.Index(i), fmt.Sprintf("%s[%d]", path, i), depth+1)
+				}
+			}
+		}
+	}
+	walk(reflect.ValueOf(root), prefix, 0)
 }
